@@ -5,7 +5,7 @@ PROPERTY = 'C03'
 THEOREMS = ['Sched.no_deadlock', 'Sched.clean_exit', 'Sched.raises_iff_cyclic', 'Sched.InvC_step', 'Sched.InvC_init', 'Sched.Inv_reach', 'Sched.bounded_executions', 'Sched.always_terminates', 'Sched.mu_decreases', 'Sched.InvG_step']
 BUDGET = {'quick': 250, 'thorough': 6000}
 TIME_LIMIT = {'quick': 55, 'thorough': 700}
-RULE = ('cyclic graphs (cycle made of hard edges, of soft edges, or closed by one soft edge), stale FAILED/SKIPPED/PENDING entries, repeated calls on the same backend (40% with another graph), all outcome kinds including SystemExit and non-final statuses; 2%: schedulers created without a backend whose calls overlap (nested / concurrent), real threads in a child process; 2%: a worker thread that cannot be started (Thread.start raises at the k-th worker), real threads in a child process, the same backend used again' + '; the real QueueScheduling backend runs under the controlled scheduler; non-trivial = '
+RULE = ('cyclic graphs (cycle made of hard edges, of soft edges, or closed by one soft edge), stale FAILED/SKIPPED/PENDING entries, repeated calls on the same backend (40% with another graph), all outcome kinds including SystemExit and non-final statuses; 2%: schedulers created without a backend whose calls overlap (nested / concurrent), real threads in a child process; 2%: a worker thread that cannot be started (Thread.start raises at the k-th worker), real threads in a child process, the same backend used again; 1.5%: the environment of an earlier run handed over after pickle / deepcopy / to_file+from_file, real threads in a child process' + '; the real QueueScheduling backend runs under the controlled scheduler; non-trivial = '
         '>= 3 tasks with >= 2 edges on >= 2 workers, or a special feature (cycle, stale entries, same backend, lost '
         'entries, several rounds); distinct = case hash')
 CORRESPONDS = sc.CORRESPONDS
@@ -28,7 +28,48 @@ def gen(rng, tier, run):
         workers = rng.randrange(1, 6)
         return {'startfail': {'workers': workers, 'at': rng.randrange(0, workers), 'tasks': rng.randrange(1, 4),
                               'again': rng.random() < 0.5}}
+    if rng.random() < 0.015:
+        # the environment of an earlier run handed over after a pickle round trip / a deep copy (Env.from_file does that)
+        return {'reloaded': {'how': rng.choice(['pickle', 'deepcopy', 'file']), 'tasks': rng.randrange(1, 4),
+                             'workers': rng.randrange(1, 4)}}
     return sc.gen(rng, tier, 'C03')
+
+
+RELOADED_SCRIPT = r'''
+import copy, json, os, pickle, sys, tempfile, threading, warnings
+warnings.simplefilter('ignore')
+import logging
+logging.disable(logging.CRITICAL)
+from valjean.cosette.depgraph import DepGraph
+from valjean.cosette.env import Env
+from valjean.cosette.pythontask import PythonTask
+from valjean.cosette.scheduler import Scheduler
+from valjean.cosette.task import TaskStatus
+from valjean.cosette.backends.queue import QueueScheduling
+spec = json.loads(sys.argv[1])
+
+def graph(extra):
+    tasks = [PythonTask(f't{i}', (lambda i=i: ({f't{i}': {'result': i}}, TaskStatus.DONE))) for i in range(spec['tasks'] + extra)]
+    g = DepGraph()
+    for t in tasks:
+        g.add_node(t)
+    for a, b in zip(tasks[1:], tasks):
+        g.add_dependency(a, on=b)
+    return g
+
+env = Scheduler(hard_graph=graph(0), backend=QueueScheduling(n_workers=spec['workers'])).schedule()
+if spec['how'] == 'pickle':
+    env = pickle.loads(pickle.dumps(env))
+elif spec['how'] == 'deepcopy':
+    env = copy.deepcopy(env)
+else:
+    path = os.path.join(tempfile.mkdtemp(), 'env.pickle')
+    env.to_file(path)
+    env = Env.from_file(path)
+env2 = Scheduler(hard_graph=graph(1), backend=QueueScheduling(n_workers=spec['workers'])).schedule(env=env)
+out = {'statuses': sorted((k, int(v['status'])) for k, v in env2.items()), 'threads': threading.active_count()}
+print('RESULT ' + json.dumps(out))
+'''
 
 
 STARTFAIL_SCRIPT = r'''
@@ -161,7 +202,7 @@ def run_overlap(case):
 
 
 def shrink(case):
-    if 'overlap' in case or 'startfail' in case:
+    if 'overlap' in case or 'startfail' in case or 'reloaded' in case:
         return iter(())
     return sc.shrink(case)
 
@@ -171,11 +212,13 @@ def run_impl(case, run):
         return run_overlap(case)
     if 'startfail' in case:
         return run_child(case, 'startfail', STARTFAIL_SCRIPT)
+    if 'reloaded' in case:
+        return run_child(case, 'reloaded', RELOADED_SCRIPT)
     return sc.run_impl(case, run)
 
 
 def run_model(case, driver, run):
-    if 'overlap' in case or 'startfail' in case:
+    if 'overlap' in case or 'startfail' in case or 'reloaded' in case:
         return None
     return sc.run_model(case, driver, run)
 
@@ -199,6 +242,19 @@ def oracle(case, impl, run):
                           f'expected {sorted(want_inner)} / {sorted(want_outer)}'))
         if obs.get('threads') != 1:
             fails.append(('clean_exit', f"overlapping calls ({spec}): {obs.get('threads')} threads alive after both calls came back"))
+        return fails
+    if 'reloaded' in case:
+        spec, obs = case['reloaded'], impl['reloaded']
+        run.count('reloaded:' + spec['how'])
+        if obs == 'timeout':
+            return [('no_deadlock', f'scheduling from the environment of an earlier run after a round trip ({spec}): not back after 30 s')]
+        if obs == 'error':
+            return [('clean_exit', f"scheduling from a reloaded environment ({spec}): the child process failed: {impl.get('stderr')}")]
+        fails = []
+        if obs.get('statuses') != [[f't{i}', 3] for i in range(spec['tasks'] + 1)]:
+            fails.append(('clean_exit', f"scheduling from a reloaded environment ({spec}): statuses {obs.get('statuses')}"))
+        if obs.get('threads') != 1:
+            fails.append(('clean_exit', f"scheduling from a reloaded environment ({spec}): {obs.get('threads')} threads alive"))
         return fails
     if 'startfail' in case:
         spec, obs = case['startfail'], impl['startfail']
@@ -224,7 +280,7 @@ def oracle(case, impl, run):
 
 
 def nontrivial(case, impl):
-    if 'overlap' in case or 'startfail' in case:
+    if 'overlap' in case or 'startfail' in case or 'reloaded' in case:
         return case
     return sc.nontrivial_key(case, impl)
 
